@@ -151,7 +151,7 @@ pub fn par(r: &Rec) -> Par {
 
 /// what the history did to the subject, observed through the real API
 #[derive(Clone, Debug)]
-struct HistOut { hdr: Hdr, rejected: bool, bytes: Option<Vec<u8>> }
+struct HistOut { hdr: Hdr, rejected: bool, bytes: Option<Vec<u8>>, mat: Option<(usize, usize)> }
 
 fn hdr_of(v: &VecZnx<Vec<u8>>) -> Hdr { Hdr { n: v.n(), cols: v.cols(), size: v.size(), max: v.max_size(), len: v.data.len(), w: 8 } }
 
@@ -167,6 +167,43 @@ fn fill_words(buf: &mut [u8], g: &mut Rng, bits: u32) {
 /// header and bytes are then transplanted into the arena with exactly the same |data|
 fn history_owned(q: &Par, kind: u8) -> Option<HistOut> {
     let s = q.subj; let (n, cols, size) = (q.n, q.cols[s], q.size[s]);
+    if q.hist == 13 {
+        // a self-consistent stream describing a LARGER object (one dimension bumped) is read into an owned receiver of the
+        // nominal shape: read_from must return Err and leave the receiver as it was; the receiver (header as its accessors
+        // report it AFTER the call, whatever it returned) is then used by the observed operation
+        let mut g = Rng::new(q.seed ^ 0x13);
+        let mut stream: Vec<u8> = Vec::new();
+        return match kind {
+            K_Z => {
+                let (n2, c2, s2) = match q.hp1 { 0 => (2 * n, cols, size), 1 => (n, cols + 1, size), _ => (n, cols, size + 1) };
+                let mut wr = VecZnx::alloc(n2, c2, s2); fill_words(&mut wr.data, &mut g, 20); wr.write_to(&mut stream).unwrap();
+                let mut rc = VecZnx::alloc(n, cols, size); fill_words(&mut rc.data, &mut g, 20);
+                let _ = rc.read_from(&mut Cursor::new(&stream));
+                Some(HistOut { hdr: hdr_of(&rc), rejected: false, bytes: Some(rc.data.clone()), mat: None })
+            }
+            K_S => {
+                let (n2, c2) = if q.hp1 == 0 { (2 * n, cols) } else { (n, cols + 1) };
+                let mut wr = ScalarZnx::alloc(n2, c2); fill_words(&mut wr.data, &mut g, 20); wr.write_to(&mut stream).unwrap();
+                let mut rc = ScalarZnx::alloc(n, cols); fill_words(&mut rc.data, &mut g, 20);
+                let _ = rc.read_from(&mut Cursor::new(&stream));
+                let h = Hdr { n: rc.n(), cols: rc.cols(), size: rc.size(), max: rc.size(), len: rc.data.len(), w: 8 };
+                Some(HistOut { hdr: h, rejected: false, bytes: Some(rc.data.clone()), mat: None })
+            }
+            K_M => {
+                // shapes of the vmp family: rows = e0, cols_in = a.cols, cols_out = r.cols, size = a.size (opc 70)
+                let (rows, cin, cout, sz) = (q.e[0] as usize, q.cols[1], q.cols[0], q.size[1]);
+                let (n2, s2, r2, ci2, co2) = match q.hp1 { 0 => (2 * n, sz, rows, cin, cout), 1 => (n, sz + 1, rows, cin, cout),
+                    2 => (n, sz, rows + 1, cin, cout), 3 => (n, sz, rows, cin + 1, cout), _ => (n, sz, rows, cin, cout + 1) };
+                let mut wr = MatZnx::alloc(n2, r2, ci2, co2, s2); { let d: &mut Vec<u8> = wr.data_mut(); fill_words(d, &mut g, 20); }
+                wr.write_to(&mut stream).unwrap();
+                let mut rc = MatZnx::alloc(n, rows, cin, cout, sz); { let d: &mut Vec<u8> = rc.data_mut(); fill_words(d, &mut g, 20); }
+                let _ = rc.read_from(&mut Cursor::new(&stream));
+                let h = Hdr { n: rc.n(), cols: rc.cols_in(), size: rc.size(), max: rc.size(), len: rc.data().len(), w: 8 };
+                Some(HistOut { hdr: h, rejected: false, bytes: Some(rc.data().clone()), mat: Some((rc.rows(), rc.cols_out())) })
+            }
+            _ => None,
+        };
+    }
     if kind != K_Z { return None; }
     let mut g = Rng::new(q.seed ^ 0x51);
     match q.hist {
@@ -174,7 +211,7 @@ fn history_owned(q: &Par, kind: u8) -> Option<HistOut> {
             let mut v = VecZnx::alloc(n, cols, q.hp2 as usize);
             fill_words(&mut v.data, &mut g, 20);
             v.reallocate_limbs(size);
-            Some(HistOut { hdr: hdr_of(&v), rejected: false, bytes: Some(v.data.clone()) })
+            Some(HistOut { hdr: hdr_of(&v), rejected: false, bytes: Some(v.data.clone()), mat: None })
         }
         3 | 4 => {
             let mut wr = VecZnx::alloc(n, cols, size + q.hp1 as usize);
@@ -184,9 +221,9 @@ fn history_owned(q: &Par, kind: u8) -> Option<HistOut> {
             wr.write_to(&mut stream).unwrap();
             let mut rc = VecZnx::alloc(n, cols, size + q.hp2 as usize);
             let res = rc.read_from(&mut Cursor::new(&stream));
-            if res.is_err() { return Some(HistOut { hdr: hdr_of(&rc), rejected: true, bytes: None }); }
+            if res.is_err() { return Some(HistOut { hdr: hdr_of(&rc), rejected: true, bytes: None, mat: None }); }
             if q.hist == 4 { let m = rc.max_size(); rc.set_size(m); }
-            Some(HistOut { hdr: hdr_of(&rc), rejected: false, bytes: Some(rc.data.clone()) })
+            Some(HistOut { hdr: hdr_of(&rc), rejected: false, bytes: Some(rc.data.clone()), mat: None })
         }
         5 | 6 => {
             let mut wr = VecZnx::alloc(n, cols, size);
@@ -197,16 +234,16 @@ fn history_owned(q: &Par, kind: u8) -> Option<HistOut> {
             stream[8 * k..8 * k + 8].copy_from_slice(&(q.hp2 as u64).to_le_bytes());
             let mut rc = VecZnx::alloc(n, cols, size);
             let res = rc.read_from(&mut Cursor::new(&stream));
-            if res.is_err() { return Some(HistOut { hdr: hdr_of(&rc), rejected: true, bytes: None }); }
+            if res.is_err() { return Some(HistOut { hdr: hdr_of(&rc), rejected: true, bytes: None, mat: None }); }
             if q.hist == 6 { let m = rc.max_size(); rc.set_size(m); }
-            Some(HistOut { hdr: hdr_of(&rc), rejected: false, bytes: Some(rc.data.clone()) })
+            Some(HistOut { hdr: hdr_of(&rc), rejected: false, bytes: Some(rc.data.clone()), mat: None })
         }
         12 => {
             // set_size beyond the capacity: the assert in set_size must reject it (a panic here is the expected outcome)
             let mut v = VecZnx::alloc(n, cols, size);
             let m = v.max_size();
             v.set_size(m + 1);
-            Some(HistOut { hdr: hdr_of(&v), rejected: false, bytes: Some(v.data.clone()) })
+            Some(HistOut { hdr: hdr_of(&v), rejected: false, bytes: Some(v.data.clone()), mat: None })
         }
         10 => {
             // header rewritten CONSISTENTLY (same product, max_size = size): read_from accepts it
@@ -218,8 +255,8 @@ fn history_owned(q: &Par, kind: u8) -> Option<HistOut> {
             for (k, v) in [(0usize, n2), (1, c2), (2, s2), (3, s2)] { stream[8 * k..8 * k + 8].copy_from_slice(&(v as u64).to_le_bytes()); }
             let mut rc = VecZnx::alloc(n, cols, size);
             let res = rc.read_from(&mut Cursor::new(&stream));
-            if res.is_err() { return Some(HistOut { hdr: hdr_of(&rc), rejected: true, bytes: None }); }
-            Some(HistOut { hdr: hdr_of(&rc), rejected: false, bytes: Some(rc.data.clone()) })
+            if res.is_err() { return Some(HistOut { hdr: hdr_of(&rc), rejected: true, bytes: None, mat: None }); }
+            Some(HistOut { hdr: hdr_of(&rc), rejected: false, bytes: Some(rc.data.clone()), mat: None })
         }
         _ => None,
     }
@@ -274,9 +311,10 @@ fn plan(q: &Par) -> Plan {
             match q.hist {
                 0 => {}
                 1 => { h.max = size + q.hp1 as usize; h.len = q.n * cols * h.max * w; }
-                2..=6 | 10 | 12 => {
-                    let ho = history_owned(q, kind).expect("c17: history needs a VecZnx subject");
+                2..=6 | 10 | 12 | 13 => {
+                    let ho = history_owned(q, kind).expect("c17: history not available for this kind of subject");
                     h = ho.hdr; rejected = ho.rejected; init = ho.bytes;
+                    if let Some((r_, co_)) = ho.mat { rows = r_; cout = co_; cin = h.cols; }
                 }
                 7 => { carved = true; start_shift = 8 * q.hp1 as usize; }
                 8 => { start_shift = (if w == 16 { 16 } else { 8 }) * q.hp1 as usize; }
@@ -305,7 +343,11 @@ fn plan(q: &Par) -> Plan {
                 11 => { h.n = if q.hp1 == 0 { (q.n / 2).max(1) } else { q.n * 2 }; h.len = h.n * words * w; }
                 _ => panic!("c17: unknown history"),
             }
-            illformed = !(kind == K_M || kind == K_V) && !h.inv();
+            illformed = if kind == K_M || kind == K_V {
+                // InvM: n * rows * cols_in * cols_out * size * w <= |data|
+                let need = [rows, cin, cout, h.size, h.w].iter().try_fold(h.n, |a, b| a.checked_mul(*b));
+                !matches!(need, Some(b) if b <= h.len)
+            } else { !h.inv() };
         }
         if std::env::var("C17_SEPARATE").is_ok() { start_shift = 0; }   // own allocations start 64-aligned
         off = r64(off);
@@ -323,7 +365,7 @@ fn plan(q: &Par) -> Plan {
     Plan { opd, rejected, illformed, total: sc_off, sc_off, init }
 }
 
-struct Obs { status: i128, canary_ok: bool, viol: i128, digest: Vec<u8>, scratch_panic: bool }
+struct Obs { status: i128, canary_ok: bool, viol: i128, digest: Vec<u8>, scratch_panic: bool, hdr: Option<Vec<i128>> }
 
 #[cfg(feature = "c17hook")]
 fn hook_reset() { poulpy_hal::verif::reset(); }
@@ -353,7 +395,7 @@ fn run_once(q: &Par, pl: &Plan, fill: u64, slack: usize, force: bool) -> Obs {
             ((h.n as u128) * (h.cols as u128) * (h.size as u128) * (h.w as u128)).saturating_sub(h.len as u128)
         };
         if pl.rejected || (pl.illformed && !(force && overshoot <= (GUARD / 2) as u128)) {
-            return Obs { status: if pl.rejected { 2 } else { 3 }, canary_ok: true, viol: 0, digest: vec![], scratch_panic: false };
+            return Obs { status: if pl.rejected { 2 } else { 3 }, canary_ok: true, viol: 0, digest: vec![], scratch_panic: false, hdr: None };
         }
         // ---- scratch need
         let rows = q.e[0].max(0) as usize;
@@ -594,12 +636,12 @@ fn run_once(q: &Par, pl: &Plan, fill: u64, slack: usize, force: bool) -> Obs {
         if miri { std::mem::forget(std::mem::take(&mut arena)); std::mem::forget(module); }
         for (_, len, p) in reg.iter() { unsafe { std::alloc::dealloc(*p, std::alloc::Layout::from_size_align((*len).max(1), 64).unwrap()); } }
         match res {
-            Ok(d) => Obs { status: 0, canary_ok: ok, viol, digest: d, scratch_panic: false },
+            Ok(d) => Obs { status: 0, canary_ok: ok, viol, digest: d, scratch_panic: false, hdr: None },
             Err(p) => {
                 let m = panic_class(p);
                 if std::env::var("C17_VERBOSE").is_ok() { eprintln!("c17: panic: {}", m); }
                 let sp = m.starts_with("Attempted to take") || m.contains("scratch.available()");
-                Obs { status: 1, canary_ok: ok, viol, digest: vec![], scratch_panic: sp }
+                Obs { status: 1, canary_ok: ok, viol, digest: vec![], scratch_panic: sp, hdr: None }
             }
         }
     })
@@ -650,6 +692,39 @@ fn run_core(q: &Par, fill: u64, slack: usize) -> Obs {
         let before: Vec<u8> = arena.clone();
         hook_reset();
         let mut carve_ok = true;
+        let mut obs_hdr: Option<Vec<i128>> = None;
+        let mut ill = false;
+        // history 13 on a carved GLWE operand: a larger GLWE (one more limb) is read into it; the reader must return Err and
+        // leave the view as it was; what its accessors report afterwards is the observed header
+        macro_rules! reject_larger_glwe { ($g:expr, $lay:expr, $size:expr) => {{
+            let big = GLWE::alloc_from_infos(&lay($size + 1));
+            let mut stream: Vec<u8> = Vec::new();
+            big.write_to(&mut stream).unwrap();
+            let _ = $g.read_from(&mut Cursor::new(&stream));
+            let d = $g.data();
+            let h = Hdr { n: d.n(), cols: d.cols(), size: d.size(), max: d.max_size(), len: d.data.len(), w: 8 };
+            obs_hdr = Some(vec![h.n as i128, h.cols as i128, h.size as i128, h.max as i128, h.len as i128, 8]);
+            if !h.inv() { ill = true; }
+        }}; }
+        // history 13 on the owned key: a larger matrix (one dimension bumped, same prefix) is read into it
+        let bump = |rows: usize, cin: usize, cout: usize, size: usize| -> (usize, usize, usize, usize, usize) {
+            match q.hp1 { 0 => (2 * n, size, rows, cin, cout), 1 => (n, size + 1, rows, cin, cout), 2 => (n, size, rows + 1, cin, cout),
+                          3 => (n, size, rows, cin + 1, cout), _ => (n, size, rows, cin, cout + 1) }
+        };
+        let key_stream = |rows: usize, cin: usize, cout: usize, size: usize| -> Vec<u8> {
+            let (n2, s2, r2, ci2, co2) = bump(rows, cin, cout, size);
+            let mut stream: Vec<u8> = Vec::new();
+            stream.extend_from_slice(&b2k.to_le_bytes()); stream.extend_from_slice(&dsize.to_le_bytes());
+            let mut m = MatZnx::alloc(n2, r2, ci2, co2, s2);
+            { let d: &mut Vec<u8> = m.data_mut(); fill_words(d, &mut Rng::new(q.seed ^ 0x4B), 16); }
+            m.write_to(&mut stream).unwrap();
+            stream
+        };
+        let mat_hdr = |mn: usize, rows: usize, cin: usize, cout: usize, size: usize, len: usize| -> (Vec<i128>, bool) {
+            let need = [rows, cin, cout, size, 8].iter().try_fold(mn, |a, b| a.checked_mul(*b));
+            (vec![mn as i128, cin as i128, size as i128, size as i128, len as i128, 8, rows as i128, cout as i128],
+             matches!(need, Some(b) if b <= len))
+        };
         let res = catch_unwind(AssertUnwindSafe(|| -> Vec<u8> {
             let win0: &mut Scratch<BE> = Scratch::<BE>::from_bytes(sl(w0, l0));
             let win1: &mut Scratch<BE> = Scratch::<BE>::from_bytes(sl(w1, l1));
@@ -663,6 +738,7 @@ fn run_core(q: &Par, fill: u64, slack: usize) -> Obs {
                     let (mut pt, _) = win1.take_glwe_plaintext(&la);
                     chk(ct.data().data.as_ptr() as usize, ct.data().data.len(), w0, l0, 0);
                     chk(pt.data.data.as_ptr() as usize, pt.data.data.len(), w1, l1, 1);
+                    if q.hist == 13 && q.subj == 0 { reject_larger_glwe!(ct, lay, q.size[0]); if ill { return vec![]; } }
                     module.vec_znx_fill_uniform(b2k as usize, &mut pt.data, 0, &mut src(q.seed ^ 2));
                     module.glwe_encrypt_sk(&mut ct, &pt, &skp, &infos, &mut src(q.seed ^ 3), &mut src(q.seed ^ 4), sc);
                     ct.data().data.to_vec()
@@ -672,6 +748,7 @@ fn run_core(q: &Par, fill: u64, slack: usize) -> Obs {
                     let (mut ct, _) = win1.take_glwe(&la);
                     chk(pt.data.data.as_ptr() as usize, pt.data.data.len(), w0, l0, 0);
                     chk(ct.data().data.as_ptr() as usize, ct.data().data.len(), w1, l1, 1);
+                    if q.hist == 13 && q.subj == 1 { reject_larger_glwe!(ct, lay, q.size[1]); if ill { return vec![]; } }
                     ct.fill_uniform(b2k as usize, &mut src(q.seed ^ 5));
                     module.glwe_decrypt(&ct, &mut pt, &skp, sc);
                     pt.data.data.to_vec()
@@ -681,14 +758,34 @@ fn run_core(q: &Par, fill: u64, slack: usize) -> Obs {
                     let (mut a, _) = win1.take_glwe(&la);
                     chk(r.data().data.as_ptr() as usize, r.data().data.len(), w0, l0, 0);
                     chk(a.data().data.as_ptr() as usize, a.data().data.len(), w1, l1, 1);
+                    if q.hist == 13 && q.subj == 0 { reject_larger_glwe!(r, lay, q.size[0]); if ill { return vec![]; } }
+                    if q.hist == 13 && q.subj == 1 { reject_larger_glwe!(a, lay, q.size[1]); if ill { return vec![]; } }
                     a.fill_uniform(b2k as usize, &mut src(q.seed ^ 6));
                     if q.opc == 92 {
                         let mut key = GGLWE::alloc_from_infos(&lk); key.fill_uniform(b2k as usize, &mut src(q.seed ^ 7));
+                        if q.hist == 13 && q.subj == 2 {
+                            let (rows, cin, cout, size) = (key.data().rows(), key.data().cols_in(), key.data().cols_out(), key.data().size());
+                            let _ = key.read_from(&mut Cursor::new(&key_stream(rows, cin, cout, size)));
+                            let m = key.data();
+                            let (h, ok) = mat_hdr(m.n(), m.rows(), m.cols_in(), m.cols_out(), m.size(), m.data().len());
+                            obs_hdr = Some(h); if !ok { ill = true; return vec![]; }
+                        }
                         let mut kp = module.gglwe_prepared_alloc_from_infos(&lk);
                         let mut sb = big(module.gglwe_prepare_tmp_bytes(&lk)); module.gglwe_prepare(&mut kp, &key, sb.borrow());
                         module.glwe_keyswitch(&mut r, &a, &kp, sc);
                     } else {
                         let mut gg = GGSW::alloc_from_infos(&lg); gg.fill_uniform(b2k as usize, &mut src(q.seed ^ 8));
+                        if q.hist == 13 && q.subj == 2 {
+                            // GGSW exposes its matrix only through the *Infos traits: rows = dnum, cols_in = cols_out = rank + 1;
+                            // the buffer length is the one GGSW::alloc allocated (64-byte rounded)
+                            let shape = |g: &GGSW<Vec<u8>>| (g.n().0 as usize, g.dnum().0 as usize, g.rank().0 as usize + 1, g.size());
+                            let (_, rows, c, size) = shape(&gg);
+                            let len0 = r64(n * rows * c * c * size * 8);
+                            let _ = gg.read_from(&mut Cursor::new(&key_stream(rows, c, c, size)));
+                            let (mn, rows2, c2, size2) = shape(&gg);
+                            let (h, ok) = mat_hdr(mn, rows2, c2, c2, size2, len0);
+                            obs_hdr = Some(h); if !ok { ill = true; return vec![]; }
+                        }
                         let mut gp = module.ggsw_prepared_alloc_from_infos(&lg);
                         let mut sb = big(module.ggsw_prepare_tmp_bytes(&lg)); module.ggsw_prepare(&mut gp, &gg, sb.borrow());
                         module.glwe_external_product(&mut r, &a, &gp, sc);
@@ -707,12 +804,12 @@ fn run_core(q: &Par, fill: u64, slack: usize) -> Obs {
         }
         if i < total && arena[i..] != before[i..] { ok = false; }
         match res {
-            Ok(d) => Obs { status: 0, canary_ok: ok, viol, digest: d, scratch_panic: false },
+            Ok(d) => Obs { status: if ill { 3 } else { 0 }, canary_ok: ok, viol, digest: d, scratch_panic: false, hdr: obs_hdr },
             Err(p) => {
                 let m = panic_class(p);
                 if std::env::var("C17_VERBOSE").is_ok() { eprintln!("c17: panic: {}", m); }
                 let sp = m.starts_with("Attempted to take") || m.contains("scratch.available()");
-                Obs { status: 1, canary_ok: ok, viol, digest: vec![], scratch_panic: sp }
+                Obs { status: 1, canary_ok: ok, viol, digest: vec![], scratch_panic: sp, hdr: obs_hdr }
             }
         }
     })
@@ -744,7 +841,9 @@ fn observe(q: &Par, force: bool) -> (Vec<i128>, Vec<i128>, usize) {
     if q.opc >= 100 { return observe_layer(q); }
     let pl = plan(q);
     let hd = pl.opd[q.subj].h;
-    let hv = vec![hd.n as i128, hd.cols as i128, hd.size as i128, hd.max as i128, hd.len as i128, hd.w as i128];
+    let mut hv = vec![hd.n as i128, hd.cols as i128, hd.size as i128, hd.max as i128, hd.len as i128, hd.w as i128];
+    let skind = op_info(q.opc).map(|x| x.0[q.subj.min(2)]).unwrap_or(K_NONE);
+    if q.opc < 90 && (skind == K_M || skind == K_V) { hv.push(pl.opd[q.subj].rows as i128); hv.push(pl.opd[q.subj].cout as i128); }
     let mut slack = 0usize;
     loop {
         let a = run_once(q, &pl, 0xA5A5_0001 ^ q.seed, slack, force);
@@ -752,6 +851,7 @@ fn observe(q: &Par, force: bool) -> (Vec<i128>, Vec<i128>, usize) {
         let b = run_once(q, &pl, 0x5A5A_0002 ^ q.seed.rotate_left(17), slack, force);
         let status = if a.status == b.status { a.status } else { 9 };
         let deq = a.digest == b.digest;
+        if let Some(h) = &a.hdr { hv = h.clone(); }
         return (vec![status, (a.canary_ok && b.canary_ok) as i128, a.viol + b.viol, deq as i128], hv, slack);
     }
 }
@@ -843,7 +943,8 @@ pub fn gen_stream(tier: &str, seed: u64, zone: u8) -> Vec<Rec> {
                 let kind = kinds[subj];
                 let mut hs: Vec<i64> = vec![0, 0, 7, 8];
                 if kind == K_Z || kind == K_D { hs.extend([1, 1]); }
-                if kind == K_Z { hs.extend([2, 3, 3, 4, 5, 5, 6, 9, 12]); }
+                if kind == K_Z { hs.extend([2, 3, 3, 4, 5, 5, 6, 9, 12, 13, 13]); }
+                if kind == K_S || kind == K_M { hs.extend([13, 13]); }
                 if kind == K_B || kind == K_D || kind == K_P { hs.push(9); }
                 match zone {
                     1..=3 => hs = vec![0],
@@ -852,8 +953,16 @@ pub fn gen_stream(tier: &str, seed: u64, zone: u8) -> Vec<Rec> {
                     _ => {}
                 }
                 if opc == 58 { hs.retain(|h| *h != 1); }   // consume: the big view reuses the active prefix only
-                if opc >= 90 { hs = vec![7]; }
-                let subj = if opc >= 90 { g.below(2) as usize } else { subj };
+                let mut subj = subj;
+                if opc >= 90 {
+                    // core level: carved operands (7), or the rejected read of a larger object into a GLWE operand / the key first (13)
+                    subj = g.below(2) as usize;
+                    hs = vec![7];
+                    if g.below(2) == 0 {
+                        hs = vec![13];
+                        subj = match opc { 90 => 0, 91 => 1, _ => g.below(3) as usize };
+                    }
+                }
                 let hist = g.pick(&hs);
                 let size = sh[subj][1]; let cols = sh[subj][0];
                 let (hp1, hp2): (i64, i64) = match hist {
@@ -871,9 +980,27 @@ pub fn gen_stream(tier: &str, seed: u64, zone: u8) -> Vec<Rec> {
                     8 => (g.range(1, if w_of(kind, be) == 16 { 3 } else { 7 }), 0),
                     9 => (g.range(1, (n as i64).max(1)), 0),
                     10 => (g.range(0, 4), 0),
+                    13 => (if opc >= 90 && subj == 2 || kind == K_M { g.range(0, 4) } else if kind == K_S { g.range(0, 1) } else { g.range(0, 2) }, 0),
                     11 => (g.range(0, 1), 0),
                     _ => (0, 0),
                 };
+                // history 13 is about the REJECTED read: when the 64-byte rounding of a tiny receiver holds the bumped object the
+                // read is (rightly) accepted and the receiver gets another shape than the other operands (or another ring degree
+                // than the module): not this stream's subject - such a record falls back to the fresh-view history
+                let hist = if hist == 13 && opc < 90 {
+                    let h1 = hp1 as usize;
+                    let (bytes, bumped) = if kind == K_M {
+                        let d = [n, sh[1][1], e[0] as usize, sh[1][0], sh[0][0]];           // n size rows cin cout
+                        let mut b = d; if h1 == 0 { b[0] *= 2 } else { b[h1.min(4)] += 1 }
+                        (d.iter().product::<usize>() * 8, b.iter().product::<usize>() * 8)
+                    } else {
+                        let d = [n, cols, if kind == K_S { 1 } else { size }];
+                        let mut b = d; if h1 == 0 { b[0] *= 2 } else { b[h1.min(2)] += 1 }
+                        (d.iter().product::<usize>() * 8, b.iter().product::<usize>() * 8)
+                    };
+                    if bumped <= r64(bytes) { 0 } else { 13 }
+                } else { hist };
+                let (hp1, hp2) = if hist == 0 { (0, 0) } else { (hp1, hp2) };
                 // a few inadmissible column selectors (a defined panic is expected)
                 if zone == 0 && opc <= 15 && matches!(hist, 0 | 1 | 7 | 8) && g.below(12) == 0 { let o = subj; sh[o][2] = sh[o][0]; }
                 let mut r = mk(be, opc, n, hist, subj, hp1, hp2, sh, e, g.next() >> 8);
